@@ -173,7 +173,10 @@ class Explorer:
                 # ---- region bookkeeping
                 key = tuple(sorted(d.to_str(c, 50) for c in pcs))
                 if key in seen_regions:
-                    tr.inconc(f'{self.label}: region enumeration made no progress (region repeated at {witness})')
+                    if self.require_closure:
+                        tr.inconc(f'{self.label}: region enumeration made no progress (region repeated at {witness})')
+                    else:
+                        tr.notes.append(f'{self.label}: region enumeration stopped (no new region); no coverage certificate')
                     return out
                 seen_regions.add(key)
                 if len(out.region_samples) < 2:
